@@ -113,7 +113,30 @@ def r13_4(prog: Program, rep: Report):
     rep.check(found and ok, "R13.4", c.qualname, f.loc, "None is recognised on the (decoded) input itself", "the None routine runs the JSON/literal loader first: the valid strings 'null' and 'None' of an Optional[str] (whose None member is tried first) come back as None", detail="subject")
 
 
+def r13_5(prog: Program, rep: Report):
+    """A duration that is already valid is not pushed through a float: the timedelta routine either returns the value
+    itself under an exact-class / isinstance guard, or rebuilds it field-wise — never only via total_seconds()."""
+    rows = C.handlers(prog, "unmarshal")
+    pe = C.PredEval(prog)
+    k, r = C.route(prog, pe, rows, C.TypeArg("datetime.timedelta"))
+    if k != "row" or r.routine is None:
+        rep.undecided("R13.5", "typelib.unmarshals.api._HANDLERS", rows[0].loc, "timedelta is not routed")
+        return
+    f = C.call_of(prog, r.routine)
+    identity = False
+    via_float = False
+    from . import c03
+
+    for p, ret in P.returns(P.paths_of(prog, f)):
+        if c03.target_guard(p.guards(), ret) and not c03.constructed(ret):
+            identity = True
+        if c03.constructed(ret) and T.contains(ret, lambda s: s[0] == "call" and s[1][0] == "attr" and s[1][2] == "total_seconds"):
+            via_float = True
+    rep.check(identity or not via_float, "R13.5", r.routine.qualname, f.loc, "a value of the exact class is returned as is (only other classes are rebuilt from total_seconds())", "every duration, even one that is already valid, is rebuilt from the float total_seconds(): large durations with a sub-second part lose microseconds (the float has 53 bits)", detail="no-float-roundtrip")
+
+
 def run(prog: Program, rep: Report, tier: str):
+    rep.rule("R13.5", "already-valid durations are not routed through a float", floor=1)
     rep.rule("R13.4", "the None member accepts the None object only, not text that parses as null", floor=1)
     rep.rule("R13.1", "identity check precedes any lossy text decode for families with text-like members", floor=1)
     rep.rule("R13.2", "serdes.load is the identity off text", floor=1)
@@ -122,3 +145,4 @@ def run(prog: Program, rep: Report, tier: str):
     r13_2(prog, rep)
     c18.r18_3(prog, rep, rule="R13.3")
     r13_4(prog, rep)
+    r13_5(prog, rep)
